@@ -12,6 +12,7 @@ from .prims import ok, err, some, NONE, RESULT, OPTION, norm_adt, deref
 ENC = l1.ENC
 DEC = l1.DEC
 LEN_RANGE = ((0, 1 << 40),)
+ITEM_LEN_RANGE = ((1, 1 << 40),)     # the encoding of a complete data item (what Encode / CborLen of a value stand for) has at least one byte
 
 INT_METHODS = ['u8', 'u16', 'u32', 'u64', 'i8', 'i16', 'i32', 'i64']
 
@@ -141,7 +142,7 @@ def len_leaf(m, cfg, f, args, t):
         ty = f.get('impl_self', ty)
     nm = 'LEN(%s)' % vname(m, st, args[0])
     if nm not in st.ranges:
-        st.ranges[nm] = LEN_RANGE
+        st.ranges[nm] = ITEM_LEN_RANGE
         st.symty[nm] = 'usize'
     st.extra['lens'] = st.extra.get('lens', ()) + ((nm, ty),)
     return Int.sym(nm)
@@ -328,7 +329,7 @@ def codec_leaf(m, cfg, f, args, t):
     if name.startswith('len_'):
         nm = 'LEN(%s)' % vname(m, st, args[0])
         if nm not in st.ranges:
-            st.ranges[nm] = LEN_RANGE
+            st.ranges[nm] = ITEM_LEN_RANGE
             st.symty[nm] = 'usize'
         return Int.sym(nm)
     if name.startswith('is_nil_'):
@@ -569,13 +570,9 @@ def items_len(m, st, events):
             ln = it[2]
             total = lin_add(lin_add(total, hl_term(m, st, ln), 1), ln, 1) if isinstance(ln, Int) else lin_add(total, hl_term(m, st, Atom('len?')), 1)
         elif k == 'ENC':
-            if (st.extra.get('known') or {}).get('is_nil(%s)' % it[2]) == 1:
-                # contract of Encode::is_nil / Decode::nil: a nil value is written as (one byte) null
-                total = lin_add(total, Int.const(1), 1)
-                continue
             nm = 'LEN(%s)' % it[2]
             if nm not in st.ranges:
-                st.ranges[nm] = LEN_RANGE
+                st.ranges[nm] = ITEM_LEN_RANGE
                 st.symty[nm] = 'usize'
             total = lin_add(total, Int.sym(nm), 1)
         else:
